@@ -3,39 +3,45 @@ From Coq Require Import List NArith ZArith Bool Arith.
 Import ListNotations.
 From Verif Require Import Base.Val C17.Model_C17 C17.Spec_C17 C17.Proofs_C17.
 
-(* revert ∘ apply ≈ id, per call: add_op (incl. forced and refused), add_hardref_op,
-   add_backref_op, add_blocker: the call does not raise, only appends to the plan, and rolling
-   back to where it started restores the state up to order.  PARTIAL: remove_op/replace_op are
-   not covered (full statement: Proofs_C17.revert_inverts_apply_statement). *)
-Theorem revert_inverts_apply_partial : forall E s a,
-  simple a = true -> Inv E s -> wf_api_b E s a = true -> Undoable E s a.
-Proof. exact revert_inverts_apply_partial_proof. Qed.
-Print Assumptions revert_inverts_apply_partial.
+(* revert ∘ apply ≈ id, for every API call (add_op incl. forced and refused, add_hardref_op,
+   add_backref_op, remove_op and replace_op with their nested decref_forward_block_ops,
+   add_blocker, a bare decref): in a state satisfying the invariant, a well-formed call does not
+   raise, only appends to the plan, and rolling back to where it started succeeds and restores
+   the state up to order inside a key, with the same plan. *)
+Theorem revert_inverts_apply : forall E s a,
+  Inv E s -> wf_api_b E s a = true ->
+  exists s1 r seg, call E a s = (s1, Ok r) /\ plan s1 = plan s ++ seg /\
+    exists s2, backtrack E (length (plan s)) s1 = (s2, Ok tt) /\ equiv s2 s.
+Proof. exact revert_inverts_apply_proof. Qed.
+Print Assumptions revert_inverts_apply.
 
-(* rollback restores the exact earlier state, for ALL well-formed histories of the calls above with
-   arbitrarily interleaved rollbacks (induction over the log): if k is the plan position reached
-   after h1 and no rollback of h2 went below k, then after h1 ++ h2 backtrack(k) succeeds and
-   gives the state after h1 up to order, with the same plan.  PARTIAL in the set of calls. *)
-Theorem rollback_restores_earlier_partial : forall E h1 h2 k,
-  WF E (h1 ++ h2) -> forallb (okE simple) (h1 ++ h2) = true ->
-  k = length (plan (run E h1 init)) -> (forall k', In (R k') h2 -> k <= k') ->
+(* the invariant is not a hypothesis about histories: every well-formed history reaches only
+   states that satisfy it *)
+Theorem inv_reachable : forall E h, WF E h -> Inv E (run E h init).
+Proof. exact inv_reachable_proof. Qed.
+Print Assumptions inv_reachable.
+
+(* rollback restores the exact earlier state, for ALL well-formed histories with arbitrarily
+   interleaved rollbacks (induction over the log): if k is the plan position reached after h1 and
+   no rollback of h2 went below k, then after h1 ++ h2 backtrack(k) succeeds and gives the state
+   after h1 (per-key lists as multisets, identical plan). *)
+Theorem rollback_restores_earlier : forall E h1 h2 k,
+  WF E (h1 ++ h2) -> k = length (plan (run E h1 init)) ->
+  (forall k', In (R k') h2 -> k <= k') ->
   exists s', backtrack E k (run E (h1 ++ h2) init) = (s', Ok tt) /\ equiv s' (run E h1 init).
-Proof. exact rollback_restores_earlier_partial_proof. Qed.
-Print Assumptions rollback_restores_earlier_partial.
+Proof. exact rollback_restores_earlier_proof. Qed.
+Print Assumptions rollback_restores_earlier.
 
-(* the same for every call (remove_op, replace_op with their nested decrefs included), reduced to
-   two per-call facts about a state invariant G *)
-Theorem rollback_restores_earlier_reduction :
-  forall E (G : state -> Prop) (ok : api -> bool),
-  (forall s1 s2, obs_eq s1 s2 -> G s1 -> G s2) ->
-  (forall s a, ok a = true -> G s -> wf_api_b E s a = true -> G (call_s E a s)) ->
-  (forall s a, ok a = true -> G s -> wf_api_b E s a = true -> Undoable E s a) ->
-  G init ->
-  forall h1 h2 k, WF E (h1 ++ h2) -> forallb (okE ok) (h1 ++ h2) = true ->
-    k = length (plan (run E h1 init)) -> (forall k', In (R k') h2 -> k <= k') ->
-    exists s', backtrack E k (run E (h1 ++ h2) init) = (s', Ok tt) /\ equiv s' (run E h1 init).
-Proof. exact rollback_restores_earlier_reduction_proof. Qed.
-Print Assumptions rollback_restores_earlier_reduction.
+(* replay form.  PARTIAL: proved when the remaining calls l contain no rollback of their own
+   (then "the state obtained by applying only the operations that remain" is literally
+   replay l init); the general form Proofs_C17.backtrack_is_replay_statement additionally needs
+   that API calls respect ≈w, which is not proved. *)
+Theorem backtrack_is_replay_partial : forall E l h2 k,
+  WF E (map C l ++ h2) -> k = length (plan (replay E l init)) ->
+  (forall k', In (R k') h2 -> k <= k') ->
+  exists s', backtrack E k (run E (map C l ++ h2) init) = (s', Ok tt) /\ equiv s' (replay E l init).
+Proof. exact backtrack_is_replay_partial_proof. Qed.
+Print Assumptions backtrack_is_replay_partial.
 
 (* backtrack respects ≈ — every operation, failing reverts and their partial states included *)
 Theorem backtrack_respects_equiv : forall E k s1 s2, equiv s1 s2 ->
